@@ -155,13 +155,14 @@ def gen_mm_fit(g, kind, method=None, D=None, iterations=None):
         ishape = lead + [K, N]
         if lead and kind in ('cacgmm',) and aligner is None and g.coin(0.2):
             ishape = [1, K, N]   # singleton leading axis is broadcast
-        a['init'] = g.arr(g.choice(['affiliation', 'affiliation_onehotish']),
+        a['init'] = g.arr(g.choice(['affiliation', 'affiliation',
+                                    'affiliation_onehotish', 'onehot']),
                           ishape)
     else:
         a['num_classes'] = K
     if g.coin(0.35):
-        a['saliency'] = g.arr(g.choice(['uniform', 'integers']), lead + [N],
-                              low=1, high=3)
+        a['saliency'] = g.arr(g.choice(['uniform', 'integers', 'uniform_zeros']),
+                              lead + [N], low=1, high=3)
     if kind == 'cacgmm':
         if g.coin(0.5):
             opts['covariance_norm'] = g.choice(['eigenvalue', 'trace', False])
@@ -172,7 +173,8 @@ def gen_mm_fit(g, kind, method=None, D=None, iterations=None):
         if g.coin(0.2):
             opts['eigenvalue_floor'] = g.choice([1e-10, 1e-6, 0.01])
         if start == 'array' and g.coin(0.25) and a['init']['shape'] == lead + [K, N]:
-            a['sam'] = g.arr('activity', lead + [K, N], reuse=False)
+            a['sam'] = g.arr('activity', lead + [K, N], reuse=False,
+                             class_off=g.coin(0.4))
     if kind in ('gmm', 'gcacgmm'):
         ct = g.choice(['full', 'diagonal', 'spherical'])
         if kind == 'gmm' and F > 0:
